@@ -101,6 +101,8 @@ def plan(ctx):
     from sqv.harness import txt
     T = 50 if ctx["tier"] == "quick" else 300
     for i, prog in enumerate(txt.PROGRAMS):
+        if len(prog) > 600:
+            continue          # (the program with hundreds of blank statements is for the layout rewrites of C15 only)
         obs.append(Obligation(f"txt.soundness.p{i}", "xh", "txt", "error_line", param={"program": i, "soundness": True}, timeout=T * 6,
                               bounds="one of 20 concrete programs; stray text from 37 samples inserted at (or the text truncated at) every token boundary, under LF / CRLF / ; variants; "
                                      "with / without an earlier list_names() and a parse cache (finite domain chosen by the solver, boundaries looped natively; real lexer+parser)",
